@@ -6,7 +6,7 @@ P="$1"; PATCH="$(realpath "$2")"; TIER="${3:-quick}"
 n=$(echo "$P" | tr 'A-Z' 'a-z')
 ID="$n-$$"
 R=/tmp/mut-r-$ID; H=/tmp/mut-h-$ID
-cleanup() { git -C /repo worktree remove --force "$R" >/dev/null 2>&1; rm -rf "$R" "$H"; git -C /repo worktree prune; }
+cleanup() { [ -n "$KEEP" ] && { echo "kept $R $H"; return; }; git -C /repo worktree remove --force "$R" >/dev/null 2>&1; rm -rf "$R" "$H"; git -C /repo worktree prune; }
 trap cleanup EXIT
 git -C /repo worktree add --detach "$R" HEAD >/dev/null 2>&1 || { echo "worktree failed"; exit 3; }
 ( cd "$R" && git apply "$PATCH" ) || { echo "MUTEST $P $(basename $PATCH): patch does not apply"; exit 3; }
